@@ -108,7 +108,13 @@ class ProcessLine(spawn_context.Process):
         with self._lock:
             if not self._recv.closed:
                 if self._recv.poll():
-                    ex,tb,po = self._recv.recv()
+                    try:
+                        ex,tb,po = self._recv.recv()
+                    except Exception as e:
+                        #The process checked that what it sends can be rebuilt - there. Here it may still fail (the exception's class
+                        #can be one that only the other process was able to import). If we let that end the thread that waits for
+                        #the process nobody would ever learn that the process is done.
+                        ex,tb,po = CobaException(f"A background process failed with an error that can't be shown here ({e})."),None,False
                     self._exception = ex
                     self._traceback = tb
                     self._poisoned  = po
